@@ -33,9 +33,12 @@ def run(ctx):
                      names=["tadpole", "tadpole_pair", "triangle_tadpole", "sunrise_tadpole"])
     ss += S.generate(ctx, 0, 3 if ctx.quick else 6, routings_per_graph=1, kinds=("uniform",),
                      special=("integer_dod:4", "integer_dod:2", "integer_dod:3", "integer_dod:6", "vacuum_massless", "vacuum_massless", "vacuum") * (1 if ctx.quick else 4))
+    ss += S.samples_for_cases(ctx, S.big_dimension_cases(ctx.rng), 2)      # D = 260 (the rescaling exponent D/2 L beyond a byte) and D = 13
+    ss += S.generate(ctx, 0, 2, routings_per_graph=1, kinds=("uniform",), special=("unit_j",) * (3 if ctx.quick else 12))
     S.run(ss)
     SC.corr_perm(ctx, ss)
     SC.generic_scalar_guard(ctx, ss[:: 9], k=8)
+    SC.nolog_agreement(ctx, ss[:: 5], k=16)      # the default-feature build (println! debugging) with print_debug_info off and on
     for s in ss:
         a, c, r = s["impl"], s["case"], s["routing"]
         nl, D, n = r["L"], c["D"], len(c["edges"])
